@@ -648,6 +648,16 @@ func parseDateParts(dateString string, isEndOfRange bool) Date {
 		}
 	}
 
+	// A word in the month position that is not a month must not be silently
+	// dropped, otherwise "Foo 1900" becomes the valid date "1900".
+	if _, monthIsKnown := months[monthName]; monthName != "" && !monthIsKnown {
+		return Date{
+			IsEndOfRange: isEndOfRange,
+			Constraint:   DateConstraintFromString(parts[constraintPos]),
+			ParseError:   fmt.Errorf("unknown month: %s", monthName),
+		}
+	}
+
 	return Date{
 		Day:          day,
 		Month:        month,
